@@ -86,8 +86,10 @@ PLAN = {
                   S("asan-default", tag="asan-c14", check="C14", env={"ASAN_OPTIONS": "detect_leaks=0"}),
                   # unoptimised (opt-level 0, debug assertions, overflow checks) ASan build: loads the optimiser would drop stay visible
                   S("asan0-default", tag="asan0-c02", check="C02", only="body-fill", env={"ASAN_OPTIONS": "detect_leaks=0"}),
-                  S("asan0-default", tag="asan0-c07", check="C07", only="agg-backends-lanes", env={"ASAN_OPTIONS": "detect_leaks=0"})],
+                  S("asan0-default", tag="asan0-c07", check="C07", only="agg-backends-lanes", env={"ASAN_OPTIONS": "detect_leaks=0"}),
+                  S("asan0-default", tag="asan0-c07s", check="C07", only="agg-backends-shapes-48", env={"ASAN_OPTIONS": "detect_leaks=0"})],
         "thorough": [
+                  S("asan0-default", tag="asan0-c07s", check="C07", only="agg-backends-shapes", env={"ASAN_OPTIONS": "detect_leaks=0"}),
                   S("asan0-default", tag="asan0-c02", check="C02", only="body-fill", env={"ASAN_OPTIONS": "detect_leaks=0"}),
                   S("asan0-default", tag="asan0-c07", check="C07", only="agg-backends-lanes", env={"ASAN_OPTIONS": "detect_leaks=0"}),
                   S("asan0-default", tag="asan0-c14", check="C14", env={"ASAN_OPTIONS": "detect_leaks=0"}),
